@@ -1,5 +1,353 @@
-//! C16 — not implemented yet.
+//! C16 — every shipped field and curve configuration is internally consistent.
+//!
+//! The *configurations* are enumerated (macro lists below: every prime field, extension tower, curve,
+//! GLV / SWU / WB / Elligator2 and pairing parameter set of the 27 crates under /repo/curves and of
+//! /repo/test-curves); deterministic identities are single exact-mode cases, probabilistic identities use
+//! witnesses decoded from the proptest tape.
+mod curves;
+mod fields;
+mod pairing;
+mod util;
+
+use ark_ec::hashing::curve_maps::wb::WBConfig;
+use ark_ec::models::short_weierstrass::SWCurveConfig;
+use ark_ec::models::CurveConfig;
+use ark_ff::fields::{fp6_2over3, fp6_3over2, Fp12ConfigWrapper, Fp2ConfigWrapper, Fp3ConfigWrapper, Fp4ConfigWrapper};
+use num_bigint::BigUint;
+use std::marker::PhantomData;
+use util::*;
+use vh_core::engine::{PropSpec, Rel, Tier};
+use vh_core::modint::big;
+use vh_core::tower::{Elem, OracleRepr};
+
+/// compile-time witness that two paths name the same type (alias crates re-export another crate's configuration)
+fn same_type<T>(_: PhantomData<T>, _: PhantomData<T>) {}
+
+macro_rules! alias {
+    ($a:ty, $b:ty) => {
+        same_type(PhantomData::<$a>, PhantomData::<$b>);
+    };
+}
+
+fn relations(tier: Tier) -> Vec<Rel> {
+    let mut out: Vec<Rel> = Vec::new();
+
+    // ---------------------------------------------------------------------------------------------
+    // prime fields
+    // ---------------------------------------------------------------------------------------------
+    macro_rules! fp {
+        ($cfg:ty, $n:expr, $name:expr) => {
+            fields::prime_field::<$cfg, $n>(&mut out, $name, tier);
+        };
+    }
+    fp!(ark_bls12_377::FqConfig, 6, "bls12_377.Fq");
+    fp!(ark_bls12_377::FrConfig, 4, "bls12_377.Fr");
+    fp!(ark_bls12_381::FqConfig, 6, "bls12_381.Fq");
+    fp!(ark_bls12_381::FrConfig, 4, "bls12_381.Fr");
+    fp!(ark_bn254::FqConfig, 4, "bn254.Fq");
+    fp!(ark_bn254::FrConfig, 4, "bn254.Fr");
+    fp!(ark_bw6_761::FqConfig, 12, "bw6_761.Fq");
+    fp!(ark_bw6_767::FqConfig, 12, "bw6_767.Fq");
+    fp!(ark_cp6_782::FqConfig, 13, "cp6_782.Fq");
+    fp!(ark_curve25519::FqConfig, 4, "curve25519.Fq");
+    fp!(ark_curve25519::FrConfig, 4, "curve25519.Fr");
+    fp!(ark_ed_on_bls12_377::FrConfig, 4, "ed_on_bls12_377.Fr");
+    fp!(ark_ed_on_bls12_381::FrConfig, 4, "ed_on_bls12_381.Fr");
+    fp!(ark_ed_on_bls12_381_bandersnatch::FrConfig, 4, "ed_on_bls12_381_bandersnatch.Fr");
+    fp!(ark_ed_on_bn254::FrConfig, 4, "ed_on_bn254.Fr");
+    fp!(ark_ed_on_cp6_782::FrConfig, 6, "ed_on_cp6_782.Fr");
+    fp!(ark_ed_on_mnt4_298::FrConfig, 5, "ed_on_mnt4_298.Fr");
+    fp!(ark_ed_on_mnt4_753::FrConfig, 12, "ed_on_mnt4_753.Fr");
+    fp!(ark_mnt4_298::FqConfig, 5, "mnt4_298.Fq");
+    fp!(ark_mnt4_298::FrConfig, 5, "mnt4_298.Fr");
+    fp!(ark_mnt4_753::FqConfig, 12, "mnt4_753.Fq");
+    fp!(ark_mnt4_753::FrConfig, 12, "mnt4_753.Fr");
+    fp!(ark_pallas::FqConfig, 4, "pallas.Fq");
+    fp!(ark_pallas::FrConfig, 4, "pallas.Fr");
+    fp!(ark_secp256k1::FqConfig, 4, "secp256k1.Fq");
+    fp!(ark_secp256k1::FrConfig, 4, "secp256k1.Fr");
+    fp!(ark_secp256r1::FqConfig, 4, "secp256r1.Fq");
+    fp!(ark_secp256r1::FrConfig, 4, "secp256r1.Fr");
+    fp!(ark_secp384r1::FqConfig, 6, "secp384r1.Fq");
+    fp!(ark_secp384r1::FrConfig, 6, "secp384r1.Fr");
+    fp!(ark_test_curves::bls12_381::FqConfig, 6, "test.bls12_381.Fq");
+    fp!(ark_test_curves::bls12_381::FrConfig, 4, "test.bls12_381.Fr");
+    fp!(ark_test_curves::ed_on_bls12_381::FrConfig, 4, "test.ed_on_bls12_381.Fr");
+    fp!(ark_test_curves::mnt4_753::FqConfig, 12, "test.mnt4_753.Fq");
+    fp!(ark_test_curves::mnt4_753::FrConfig, 12, "test.mnt4_753.Fr");
+    fp!(ark_test_curves::bn384_small_two_adicity::FqConfig, 6, "test.bn384.Fq");
+    fp!(ark_test_curves::bn384_small_two_adicity::FrConfig, 6, "test.bn384.Fr");
+    fp!(ark_test_curves::secp256k1::FqConfig, 4, "test.secp256k1.Fq");
+    fp!(ark_test_curves::secp256k1::FrConfig, 4, "test.secp256k1.Fr");
+    fp!(ark_test_curves::fp128::FqConfig, 2, "test.fp128.Fq");
+
+    // fields that are re-exports of a configuration checked above (verified by the type checker)
+    alias!(ark_bw6_761::Fr, ark_bls12_377::Fq);
+    alias!(ark_bw6_767::Fr, ark_bls12_381::Fq);
+    alias!(ark_cp6_782::Fr, ark_bls12_377::Fq);
+    alias!(ark_ed25519::Fq, ark_curve25519::Fq);
+    alias!(ark_ed25519::Fr, ark_curve25519::Fr);
+    alias!(ark_ed_on_bls12_377::Fq, ark_bls12_377::Fr);
+    alias!(ark_ed_on_bls12_381::Fq, ark_bls12_381::Fr);
+    alias!(ark_ed_on_bls12_381_bandersnatch::Fq, ark_bls12_381::Fr);
+    alias!(ark_ed_on_bn254::Fq, ark_bn254::Fr);
+    alias!(ark_ed_on_cp6_782::Fq, ark_bls12_377::Fq);
+    alias!(ark_ed_on_bw6_761::Fq, ark_bls12_377::Fq);
+    alias!(ark_ed_on_bw6_761::Fr, ark_ed_on_cp6_782::Fr);
+    alias!(ark_ed_on_bw6_761::EdwardsConfig, ark_ed_on_cp6_782::EdwardsConfig);
+    alias!(ark_ed_on_mnt4_298::Fq, ark_mnt4_298::Fr);
+    alias!(ark_ed_on_mnt4_753::Fq, ark_mnt4_753::Fr);
+    alias!(ark_grumpkin::Fq, ark_bn254::Fr);
+    alias!(ark_grumpkin::Fr, ark_bn254::Fq);
+    alias!(ark_mnt6_298::Fq, ark_mnt4_298::Fr);
+    alias!(ark_mnt6_298::Fr, ark_mnt4_298::Fq);
+    alias!(ark_mnt6_753::Fq, ark_mnt4_753::Fr);
+    alias!(ark_mnt6_753::Fr, ark_mnt4_753::Fq);
+    alias!(ark_vesta::Fq, ark_pallas::Fr);
+    alias!(ark_vesta::Fr, ark_pallas::Fq);
+    alias!(ark_secq256k1::Fq, ark_secp256k1::Fr);
+    alias!(ark_secq256k1::Fr, ark_secp256k1::Fq);
+    alias!(ark_test_curves::ed_on_bls12_381::Fq, ark_test_curves::bls12_381::Fr);
+    alias!(ark_test_curves::mnt6_753::Fq, ark_test_curves::mnt4_753::Fr);
+    alias!(ark_test_curves::mnt6_753::Fr, ark_test_curves::mnt4_753::Fq);
+
+    // ---------------------------------------------------------------------------------------------
+    // extension towers
+    // ---------------------------------------------------------------------------------------------
+    macro_rules! tower_2_6_12 {
+        ($($krate:ident)::+, $name:expr) => {
+            fields::quad_ext::<Fp2ConfigWrapper<$($krate)::+::Fq2Config>>(&mut out, concat!($name, ".Fq2"), tier, false);
+            fields::cubic_ext::<fp6_3over2::Fp6ConfigWrapper<$($krate)::+::Fq6Config>>(&mut out, concat!($name, ".Fq6"), tier);
+            fields::quad_ext::<Fp12ConfigWrapper<$($krate)::+::Fq12Config>>(&mut out, concat!($name, ".Fq12"), tier, true);
+        };
+    }
+    tower_2_6_12!(ark_bls12_377, "bls12_377");
+    tower_2_6_12!(ark_bls12_381, "bls12_381");
+    tower_2_6_12!(ark_bn254, "bn254");
+    tower_2_6_12!(ark_test_curves::bls12_381, "test.bls12_381");
+    macro_rules! tower_3_6 {
+        ($($krate:ident)::+, $name:expr) => {
+            fields::cubic_ext::<Fp3ConfigWrapper<$($krate)::+::Fq3Config>>(&mut out, concat!($name, ".Fq3"), tier);
+            fields::quad_ext::<fp6_2over3::Fp6ConfigWrapper<$($krate)::+::Fq6Config>>(&mut out, concat!($name, ".Fq6"), tier, false);
+        };
+    }
+    tower_3_6!(ark_bw6_761, "bw6_761");
+    tower_3_6!(ark_bw6_767, "bw6_767");
+    tower_3_6!(ark_cp6_782, "cp6_782");
+    tower_3_6!(ark_mnt6_298, "mnt6_298");
+    tower_3_6!(ark_mnt6_753, "mnt6_753");
+    fields::cubic_ext::<Fp3ConfigWrapper<ark_test_curves::mnt6_753::Fq3Config>>(&mut out, "test.mnt6_753.Fq3", tier);
+    macro_rules! tower_2_4 {
+        ($($krate:ident)::+, $name:expr) => {
+            fields::quad_ext::<Fp2ConfigWrapper<$($krate)::+::Fq2Config>>(&mut out, concat!($name, ".Fq2"), tier, false);
+            fields::quad_ext::<Fp4ConfigWrapper<$($krate)::+::Fq4Config>>(&mut out, concat!($name, ".Fq4"), tier, true);
+        };
+    }
+    tower_2_4!(ark_mnt4_298, "mnt4_298");
+    tower_2_4!(ark_mnt4_753, "mnt4_753");
+
+    // ---------------------------------------------------------------------------------------------
+    // curves (cost: relative cost of one r*(h*P) witness; divides the witness count)
+    // ---------------------------------------------------------------------------------------------
+    macro_rules! sw {
+        ($cfg:ty, $name:expr, $cost:expr) => {
+            curves::sw_curve::<$cfg>(&mut out, $name, tier, $cost);
+        };
+    }
+    macro_rules! te {
+        ($cfg:ty, $name:expr, $cost:expr) => {
+            curves::te_curve::<$cfg>(&mut out, $name, tier, $cost);
+        };
+    }
+    macro_rules! glv {
+        ($cfg:ty, $name:expr, $cost:expr) => {
+            curves::glv::<$cfg>(&mut out, $name, tier, $cost);
+        };
+    }
+    macro_rules! wb {
+        ($cfg:ty, $name:expr, $cost:expr) => {
+            curves::wb::<$cfg>(&mut out, $name, tier, $cost);
+            curves::swu::<<$cfg as WBConfig>::IsogenousCurve>(&mut out, concat!($name, ".iso"));
+            curves::sw_curve::<<$cfg as WBConfig>::IsogenousCurve>(&mut out, concat!($name, ".iso"), tier, $cost);
+        };
+    }
+    // BLS12-377
+    sw!(ark_bls12_377::g1::Config, "bls12_377.G1", 1);
+    glv!(ark_bls12_377::g1::Config, "bls12_377.G1", 1);
+    wb!(ark_bls12_377::g1::Config, "bls12_377.G1", 1);
+    te!(ark_bls12_377::g1::Config, "bls12_377.G1.te", 1);
+    curves::sw_te_same_curve::<ark_bls12_377::g1::Config>(&mut out, "bls12_377.G1");
+    sw!(ark_bls12_377::g2::Config, "bls12_377.G2", 4);
+    glv!(ark_bls12_377::g2::Config, "bls12_377.G2", 4);
+    wb!(ark_bls12_377::g2::Config, "bls12_377.G2", 4);
+    // BLS12-381
+    sw!(ark_bls12_381::g1::Config, "bls12_381.G1", 1);
+    glv!(ark_bls12_381::g1::Config, "bls12_381.G1", 1);
+    wb!(ark_bls12_381::g1::Config, "bls12_381.G1", 1);
+    sw!(ark_bls12_381::g2::Config, "bls12_381.G2", 4);
+    glv!(ark_bls12_381::g2::Config, "bls12_381.G2", 4);
+    wb!(ark_bls12_381::g2::Config, "bls12_381.G2", 4);
+    // BN254 and its cycle partner
+    sw!(ark_bn254::g1::Config, "bn254.G1", 1);
+    glv!(ark_bn254::g1::Config, "bn254.G1", 1);
+    sw!(ark_bn254::g2::Config, "bn254.G2", 2);
+    glv!(ark_bn254::g2::Config, "bn254.G2", 2);
+    sw!(ark_grumpkin::GrumpkinConfig, "grumpkin", 1);
+    // BW6 / CP6
+    sw!(ark_bw6_761::g1::Config, "bw6_761.G1", 4);
+    glv!(ark_bw6_761::g1::Config, "bw6_761.G1", 4);
+    sw!(ark_bw6_761::g2::Config, "bw6_761.G2", 4);
+    glv!(ark_bw6_761::g2::Config, "bw6_761.G2", 4);
+    sw!(ark_bw6_767::g1::Config, "bw6_767.G1", 4);
+    sw!(ark_bw6_767::g2::Config, "bw6_767.G2", 4);
+    sw!(ark_cp6_782::g1::Config, "cp6_782.G1", 4);
+    sw!(ark_cp6_782::g2::Config, "cp6_782.G2", 16);
+    // MNT
+    sw!(ark_mnt4_298::g1::Config, "mnt4_298.G1", 1);
+    sw!(ark_mnt4_298::g2::Config, "mnt4_298.G2", 4);
+    sw!(ark_mnt4_753::g1::Config, "mnt4_753.G1", 4);
+    sw!(ark_mnt4_753::g2::Config, "mnt4_753.G2", 16);
+    sw!(ark_mnt6_298::g1::Config, "mnt6_298.G1", 1);
+    sw!(ark_mnt6_298::g2::Config, "mnt6_298.G2", 8);
+    sw!(ark_mnt6_753::g1::Config, "mnt6_753.G1", 4);
+    sw!(ark_mnt6_753::g2::Config, "mnt6_753.G2", 16);
+    // plain curves
+    sw!(ark_pallas::PallasConfig, "pallas", 1);
+    glv!(ark_pallas::PallasConfig, "pallas", 1);
+    sw!(ark_vesta::VestaConfig, "vesta", 1);
+    glv!(ark_vesta::VestaConfig, "vesta", 1);
+    sw!(ark_secp256k1::Config, "secp256k1", 1);
+    sw!(ark_secq256k1::Config, "secq256k1", 1);
+    sw!(ark_secp256r1::Config, "secp256r1", 1);
+    sw!(ark_secp384r1::Config, "secp384r1", 1);
+    // twisted Edwards
+    te!(ark_curve25519::Curve25519Config, "curve25519", 1);
+    te!(ark_ed25519::EdwardsConfig, "ed25519", 1);
+    te!(ark_ed_on_bls12_377::EdwardsConfig, "ed_on_bls12_377", 1);
+    te!(ark_ed_on_bls12_381::JubjubConfig, "ed_on_bls12_381", 1);
+    sw!(ark_ed_on_bls12_381::JubjubConfig, "ed_on_bls12_381.sw", 1);
+    curves::sw_te_same_curve::<ark_ed_on_bls12_381::JubjubConfig>(&mut out, "ed_on_bls12_381");
+    te!(ark_ed_on_bls12_381_bandersnatch::BandersnatchConfig, "ed_on_bls12_381_bandersnatch", 1);
+    sw!(ark_ed_on_bls12_381_bandersnatch::BandersnatchConfig, "ed_on_bls12_381_bandersnatch.sw", 1);
+    curves::sw_te_same_curve::<ark_ed_on_bls12_381_bandersnatch::BandersnatchConfig>(&mut out, "ed_on_bls12_381_bandersnatch");
+    curves::elligator2::<ark_ed_on_bls12_381_bandersnatch::BandersnatchConfig>(&mut out, "ed_on_bls12_381_bandersnatch");
+    te!(ark_ed_on_bn254::EdwardsConfig, "ed_on_bn254", 1);
+    te!(ark_ed_on_cp6_782::EdwardsConfig, "ed_on_cp6_782", 1);
+    te!(ark_ed_on_mnt4_298::EdwardsConfig, "ed_on_mnt4_298", 1);
+    te!(ark_ed_on_mnt4_753::EdwardsConfig, "ed_on_mnt4_753", 4);
+    // test-curves
+    sw!(ark_test_curves::bls12_381::g1::Config, "test.bls12_381.G1", 1);
+    glv!(ark_test_curves::bls12_381::g1::Config, "test.bls12_381.G1", 1);
+    wb!(ark_test_curves::bls12_381::g1::Config, "test.bls12_381.G1", 1);
+    sw!(ark_test_curves::bls12_381::g2::Config, "test.bls12_381.G2", 4);
+    wb!(ark_test_curves::bls12_381::g2::Config, "test.bls12_381.G2", 4);
+    sw!(ark_test_curves::mnt4_753::g1::Config, "test.mnt4_753.G1", 4);
+    sw!(ark_test_curves::bn384_small_two_adicity::g1::Config, "test.bn384.G1", 1);
+    sw!(ark_test_curves::secp256k1::Config, "test.secp256k1", 1);
+    te!(ark_test_curves::ed_on_bls12_381::EdwardsConfig, "test.ed_on_bls12_381", 1);
+
+    // ---------------------------------------------------------------------------------------------
+    // pairing parameter sets
+    // ---------------------------------------------------------------------------------------------
+    pairing::bls12_cfg::<ark_bls12_377::Config>(&mut out, "bls12_377");
+    pairing::bls12_cfg::<ark_bls12_381::Config>(&mut out, "bls12_381");
+    pairing::bls12_cfg::<ark_test_curves::bls12_381::Config>(&mut out, "test.bls12_381");
+    pairing::bn_cfg::<ark_bn254::Config>(&mut out, "bn254", tier);
+    pairing::bw6_cfg::<ark_bw6_761::Config>(&mut out, "bw6_761");
+    pairing::bw6_cfg::<ark_bw6_767::Config>(&mut out, "bw6_767");
+    pairing::mnt4_cfg::<ark_mnt4_298::Config>(&mut out, "mnt4_298");
+    pairing::mnt4_cfg::<ark_mnt4_753::Config>(&mut out, "mnt4_753");
+    pairing::mnt6_cfg::<ark_mnt6_298::Config>(&mut out, "mnt6_298");
+    pairing::mnt6_cfg::<ark_mnt6_753::Config>(&mut out, "mnt6_753");
+    {
+        // CP6-782 is not an instance of a model trait: public constants of the crate
+        use ark_cp6_782 as c;
+        let tw = <c::Fq3 as OracleRepr>::tower();
+        let d = pairing::MntData {
+            name: "cp6_782",
+            k: 6,
+            q: big(&<c::FqConfig as ark_ff::MontConfig<13>>::MODULUS.0),
+            r: big(&<ark_bls12_377::FqConfig as ark_ff::MontConfig<6>>::MODULUS.0),
+            h1: big(<c::g1::Config as CurveConfig>::COFACTOR),
+            twist: c::TWIST.to_o(),
+            twist_coeff_a: None,
+            g1a: tw.from_base(&<c::g1::Config as SWCurveConfig>::COEFF_A.to_o()),
+            g1b: tw.from_base(&<c::g1::Config as SWCurveConfig>::COEFF_B.to_o()),
+            g2a: <c::g2::Config as SWCurveConfig>::COEFF_A.to_o(),
+            g2b: <c::g2::Config as SWCurveConfig>::COEFF_B.to_o(),
+            ate_be: vec![],
+            ate_neg: c::ATE_IS_LOOP_COUNT_NEG,
+            ate_is_trace_minus_one: false,
+            w1: big(c::FINAL_EXPONENT_LAST_CHUNK_W1.as_ref()),
+            w0: big(c::FINAL_EXPONENT_LAST_CHUNK_ABS_OF_W0.as_ref()),
+            w0_neg: c::FINAL_EXPONENT_LAST_CHUNK_W0_IS_NEG,
+            tw,
+        };
+        pairing::mnt_rels(&mut out, d);
+    }
+    pairing::bilinear::<ark_bls12_377::Bls12_377>(&mut out, "bls12_377", tier, 4);
+    pairing::bilinear::<ark_bls12_381::Bls12_381>(&mut out, "bls12_381", tier, 4);
+    pairing::bilinear::<ark_test_curves::bls12_381::Bls12_381>(&mut out, "test.bls12_381", tier, 4);
+    pairing::bilinear::<ark_bn254::Bn254>(&mut out, "bn254", tier, 4);
+    pairing::bilinear::<ark_bw6_761::BW6_761>(&mut out, "bw6_761", tier, 4);
+    pairing::bilinear::<ark_bw6_767::BW6_767>(&mut out, "bw6_767", tier, 4);
+    pairing::bilinear::<ark_cp6_782::CP6_782>(&mut out, "cp6_782", tier, 2);
+    pairing::bilinear::<ark_mnt4_298::MNT4_298>(&mut out, "mnt4_298", tier, 4);
+    pairing::bilinear::<ark_mnt4_753::MNT4_753>(&mut out, "mnt4_753", tier, 2);
+    pairing::bilinear::<ark_mnt6_298::MNT6_298>(&mut out, "mnt6_298", tier, 4);
+    pairing::bilinear::<ark_mnt6_753::MNT6_753>(&mut out, "mnt6_753", tier, 2);
+
+    // ---------------------------------------------------------------------------------------------
+    // documented stand-alone public constants
+    // ---------------------------------------------------------------------------------------------
+    {
+        // curves/bls12_381 g1::BETA: "a non-trivial cubic root of unity in Fq"
+        let p = big(&<ark_bls12_381::FqConfig as ark_ff::MontConfig<6>>::MODULUS.0);
+        let b = match ark_bls12_381::g1::BETA.to_o() {
+            Elem::P(v) => v,
+            _ => unreachable!(),
+        };
+        out.push(identities("misc.BETA/bls12_381.G1".into(), 1, move |_t, o| {
+            o.nt(true);
+            o.show(|| format!("bls12_381 g1::BETA = {} is a non-trivial cube root of unity", hx(&b)));
+            check(b != BigUint::from(1u32) && (&b * &b * &b) % &p == BigUint::from(1u32), "BETA", || format!("BETA^3 mod q = {}", hx(&((&b * &b * &b) % &p))))
+        }));
+    }
+    {
+        // test-curves bls12_381 g2: PSI_X = 1/(u+1)^((p-1)/3), PSI_Y = 1/(u+1)^((p-1)/2); the third constant is
+        // documented in curves/bls12_381 as PSI_2_X = (u+1)^((1-p^2)/3)
+        use ark_test_curves::bls12_381 as c;
+        let tw = <c::Fq2 as OracleRepr>::tower();
+        let xi = <c::Fq6Config as fp6_3over2::Fp6Config>::NONRESIDUE.to_o();
+        let consts = [c::g2::P_POWER_ENDOMORPHISM_COEFF_0.to_o(), c::g2::P_POWER_ENDOMORPHISM_COEFF_1.to_o(), c::g2::DOUBLE_P_POWER_ENDOMORPHISM.to_o()];
+        out.push(identities("misc.psi_coefficients/test.bls12_381.G2".into(), 3, move |t, o| {
+            let i = t.below(3) as usize;
+            let p = tw.characteristic().clone();
+            o.nt(true);
+            // c * xi^e = 1
+            let e = match i {
+                0 => (&p - 1u32) / 3u32,
+                1 => (&p - 1u32) / 2u32,
+                _ => (&p * &p - 1u32) / 3u32,
+            };
+            let v = tw.mul(&consts[i], &tw.pow(&xi, &e));
+            o.show(|| format!("test.bls12_381.G2 psi coefficient {} = {} is the inverse of (u+1)^{}", i, show_elem(&tw, &consts[i]), ["((p-1)/3)", "((p-1)/2)", "((p^2-1)/3)"][i]));
+            check(v == tw.one(), "psi-coefficient", || format!("coefficient {} times the documented power of (u+1) is {} expected 1", i, show_elem(&tw, &v)))
+        }));
+    }
+    out
+}
+
 fn main() {
-    eprintln!("C16: check not implemented");
-    std::process::exit(2);
+    vh_core::engine::main(PropSpec {
+        id: "C16",
+        rule: "The configurations are enumerated, not generated: every prime field (40 distinct MontConfig types; 28 further paths are re-exports, proved identical by the type checker), extension tower (27 levels), short-Weierstrass (40) and twisted-Edwards (11) curve, GLV (11), SWU/WB (6), Elligator2 (1) and pairing (11 engines) parameter set of the 27 crates under curves/ and of test-curves. One relation per (configuration, identity family). Deterministic identities (one exact-mode case each) are recomputed with num-bigint / schoolbook tower arithmetic from the modulus and NONRESIDUE only; probabilistic identities (r*(h*P)=O on the whole curve, phi(Q)=lambda*Q, isogeny additivity, psi(Q)=[q]Q, mul_by_a/add_b/mul_by_nonresidue helpers, bilinearity) use witnesses decoded from the proptest tape (64 per identity in quick, 512 in thorough, divided by a cost factor for the 753-bit towers) and the harness' own affine group laws and MSB-first double-and-add. A case is non-trivial when its witness is (deterministic identity that is not vacuous for the configuration; random witness that is a non-zero element / non-identity point); distinct = distinct decoded choices.",
+        assumptions: &[
+            "num-bigint arithmetic and the harness' Miller-Rabin (25 prime bases) are correct",
+            "arkworks prime/extension field arithmetic (C01/C02) is used inside the curve oracles (group law, scalar multiplication, isogeny evaluation)",
+            "GENERATOR is checked to be a quadratic non-residue (the property's statement); its full multiplicative order p-1 (MontConfig doc comment) is only reported as an observation class (trial division of p-1 below 2^20, 2^24 thorough), never as a failure",
+            "constants without a documented defining equation (BW6 H_T/H_Y/T_MOD_R_IS_ZERO, CP6-782 ATE_LOOP_COUNT, private psi coefficients of the curve crates) are covered only through the bilinearity sanity relation or other properties (C06, C12)",
+        ],
+        relations,
+    })
 }
